@@ -212,6 +212,37 @@ def rule_replace_data(ck):
     ck.ob("mpt.replace", f"{nm}/stores-new-set", len(stores) >= 1, "", f.loc())
 
 
+def rule_lookup_all_sources(ck):
+    """the record lookup for a stop address searches every source, then the function and instruction sets"""
+    prog = ck.prog
+    ck.rule("loop.record_lookup", "with_breakpoint_record_mut (the lookup behind conditions, hit conditions and log messages): the loop over breakpoints_by_source leaves its body only by returning the found record — a miss in one source entry goes on to the next entry (no `break`), and when no source has the address the function and the instruction sets are consulted")
+    fs = [f for p_, f in prog.fns.items() if p_.endswith("::with_breakpoint_record_mut")]
+    if not ck.ob("loop.record_lookup", "with_breakpoint_record_mut/exists", len(fs) == 1, "", ""):
+        return
+    f = fs[0]
+    ck.saw(f)
+    hdrs = [c for c in f.calls() if is_iter_next(c) and c.bb in f.after(c.bb) and ".breakpoints_by_source" in expr_str(expr_of(f, c.args[0], depth=10), 10)]
+    once = [c for c in f.calls() if is_iter_next(c) and c.bb not in f.after(c.bb) and ".breakpoints_by_source" in expr_str(expr_of(f, c.args[0], depth=10), 10)]
+    if not hdrs and once:
+        ck.ob("loop.record_lookup", "with_breakpoint_record_mut/miss-continues-with-next-source", False, "the iteration over breakpoints_by_source never comes back to its `next()`: at most the first source entry is inspected", f.loc(once[0].bb), what="conditions, hit conditions and log messages of a source breakpoint are ignored unless its file happens to be the first entry of the map")
+        return
+    if not ck.ob("loop.record_lookup", "with_breakpoint_record_mut/loop-over-sources", len(hdrs) == 1, f"{len(hdrs)} loops over breakpoints_by_source", f.loc()):
+        return
+    rets = set(f.return_blocks())
+    bad = []
+    for b, s2 in loop_body_exits(f, hdrs[0].bb):
+        # leaving the body is fine when the function returns from there without touching the other sets:
+        # i.e. the path does not run into the post-loop lookups
+        post = f.reach_from([s2], avoid=set()) | {s2}
+        looks_further = any(f.call_at(x) is not None and re.search(r"Iterator.*::find$|::iter_mut$|::values_mut$", f.call_at(x).name) for x in post)
+        if looks_further:
+            bad.append((b, s2))
+    ck.ob("loop.record_lookup", "with_breakpoint_record_mut/miss-continues-with-next-source", not bad, f"{len(bad)} edge(s) leave the loop over sources on a miss and fall through to the other sets", f.loc(hdrs[0].bb), what="conditions, hit conditions and log messages of a source breakpoint are ignored unless its file happens to be the first entry of the map")
+    for fld in ("function_breakpoints", "instruction_breakpoints"):
+        found = any(fld in expr_str(expr_of(f, c.args[0], depth=8), 8) for c in f.calls() if re.search(r"::iter_mut$|::values_mut$|Iterator.*::find$", c.name))
+        ck.ob("loop.record_lookup", f"with_breakpoint_record_mut/consults-{fld}", found, "", f.loc())
+
+
 def _mentions(e, fld):
     return ("." + fld) in expr_str(e, 8)
 
@@ -352,5 +383,6 @@ def run(ck):
     rule_rekey(ck)
     rule_replace(ck)
     rule_replace_data(ck)
+    rule_lookup_all_sources(ck)
     rule_verified(ck)
     rule_hits(ck)
